@@ -11,6 +11,8 @@ Header arguments (5 tokens): <name> <comment> <extra> <mtime> <os>
   c08.close <hdr x5> <xfl> <blocks>      blocks = comma-separated <payload length>:<DEFLATE length>, in queue order
       -> "<close result> <output length> <hasEOF> <member sizes>"    (Member.closeOutput / hasEOF)
          close result = ok | gzip | nobc | overflow
+  c08.open <hdr x5> <xfl> <blocks>       the same for a writer that was never closed (Member.render only):
+      -> "open <output length> <hasEOF> <member sizes>"
   c08.bound <n>  -> compressBound n
 -/
 import Hts.Drv.Util
@@ -85,6 +87,15 @@ def handle (cmd : String) (args : List String) : Option String :=
     let (out, e) := closeOutput c h payloads
     let res := match e with | none => "ok" | some e => showErr e
     some s!"{res} {out.length} {boolStr (hasEOF out)} {C01.joinOr ((memberSizes (out.length + 1) out).map toString)}"
+  | "c08.open", [name, comment, extra, mtime, os, xfl, blocks] => do
+    let h ← parseHeader name comment extra mtime os
+    let prs ← (C01.splitList blocks).mapM parsePair
+    let idx := (List.range prs.length).zip prs
+    let tbl := idx.map (fun (i, (l, dl)) => (l, (if l = 0 then 0 else i % 256), List.replicate dl (0 : Byte)))
+    let c := tableCodec (← xfl.toNat?) tbl 0
+    let payloads := idx.map (fun (i, (l, _)) => List.replicate l (UInt8.ofNat (i % 256)))
+    let out := (render c h payloads).1
+    some s!"open {out.length} {boolStr (hasEOF out)} {C01.joinOr ((memberSizes (out.length + 1) out).map toString)}"
   | "c08.bound", [n] => do
     some (toString (compressBound (← n.toNat?)))
   | _, _ => none
